@@ -73,11 +73,11 @@ def run_suite(suite, pid, rng, tier, findings):
     for i in bad:
         res["disagreements"].append({"suite": suite.name, "case": cases[i], "impl": outs[i]})
     if oracle is not None:
-        for c, o in zip(cases, outs):
+        for idx, (c, o) in enumerate(zip(cases, outs)):
             msg = oracle(c, o)
             if msg is None:
                 continue
-            item = {"suite": suite.name, "case": c, "impl": o, "message": msg}
+            item = {"suite": suite.name, "case": c, "impl": o, "message": msg, "index": idx}
             f = match_finding(pid, suite, c, o, msg, findings)
             if f is not None:
                 item["finding"] = f["id"]
@@ -165,6 +165,7 @@ def check(pid, tier, seed, t0):
         v = violations[0]
         path = C.write_replay(pid, {"property": pid, "kind": "oracle-violation", "suite": v["suite"],
                                     "case": v["case"], "observed": v["impl"], "message": v["message"],
+                                    "index": v.get("index"), "seed": seed, "tier": tier,
                                     "replay": f"/venv/bin/python {os.path.join(HERE, 'replay.py')} <this file>"})
         print(f"VIOLATION property={pid} replay={path}")
         rc = 1
@@ -178,6 +179,7 @@ def check(pid, tier, seed, t0):
             seen.add(key)
             p2 = C.write_replay(pid, {"property": pid, "kind": "oracle-violation", "suite": v2["suite"],
                                       "case": v2["case"], "observed": v2["impl"], "message": v2["message"],
+                                      "index": v2.get("index"), "seed": seed, "tier": tier,
                                       "replay": f"/venv/bin/python {os.path.join(HERE, 'replay.py')} <this file>"})
             other_violations.append({"suite": v2["suite"], "message": v2["message"][:300], "replay": p2})
             print(f"  (also: {v2['suite']}: {v2['message'][:160]} -> {p2})", file=sys.stderr)
